@@ -436,7 +436,10 @@ def loadRecord (s : LoadSt) (r : Reader.Record) : Except LoadErr LoadSt :=
     pure { tree := updLastChange s.tree (fun c => { c with files := c.files ++ [{ newFile with opts := o }] }),
            cur := .file }
   | .preamble, .text t =>
-    let sec : ContentSec := ⟨.preamble, contentOpts r.opts, .str t⟩
+    -- `options.setdefault('indent', None)`: a preamble without an indent option is not indented
+    let o := contentOpts r.opts
+    let o := if (o.get b!"indent").isSome then o else o ++ [(b!"indent", .none)]
+    let sec : ContentSec := ⟨.preamble, o, .str t⟩
     (match s.cur with
      | .main => .ok { s with tree := { s.tree with preamble := sec } }
      | .change => .ok { s with tree := updLastChange s.tree (fun c => { c with preamble := sec }) }
